@@ -46,6 +46,8 @@ def gen_env(rng, hostile_mount=False):
         "wbuf": rng.choice(WBUFS),
         "t0": 1_600_000_000_000_000 + rng.randrange(0, 150_000_000) * 1_000_000 + rng.randrange(1_000_000),
         "mount": ["m"],
+        # how the root folder is spelled on the command line (legal spellings of the same folder)
+        "root_spelling": rng.choice(["abs"] * 12 + ["abs_slash"] * 4 + ["rel", "dot_rel", "dot", "abs_dslash"]),
         "rootname": rng.choice(["root", "Reel A", "R", "card_01", "ünï", "notes", "sub", "d1", "cache", "tmp_root", "x.bak",
                                 "Card [A001]", "e\u0301 nfd", "x[1]"]),
     }
